@@ -20,7 +20,7 @@ MATCH_MUTS = ["m_add", "m_del"]
 
 
 def runs_for(tier):
-    return 4000 if tier == "quick" else 40000
+    return 3000 if tier == "quick" else 40000
 
 
 def matchable_template(rng, pool):
